@@ -58,7 +58,8 @@ Definition isa_shows (img : list Z) (inp : list Z) (n : nat) (b : behaviour) : P
        names (global arrays, array formals) as actuals of array formals (passed by address), and the system call get
        (console input, end of input = 255); function calls and get may stand as the whole right-hand side of an
        assignment, the whole value of a return or the whole condition of an if / while, or at the bottom of the LEFT
-       spine of such an expression under + - = < ~ with simple right operands (literals, variables); constants that do not fit an immediate
+       spine of such an expression under + - = < ~ with simple right operands (literals, variables); such an expression
+       may also be the FIRST actual of a procedure-call statement whose other actuals are simple; constants that do not fit an immediate
        operand must be listed in the pool parameter -- otherwise model_compile returns None;
      - model_compile's built-in VALIDATION succeeded (it returns None otherwise): the ISA's decoder reads the stub
        and every procedure's code at the layout's label positions, the loaded words hold those bytes, the stack
@@ -160,8 +161,12 @@ Print Assumptions C01_expr_fragment_partial.
    `x := f(a) + x`, `return (get(0) - 48) + d`, `while ~(get(0) = 255) do ..`.  genBinopOperands then computes the left
    operand first and loads the simple right one into breg afterwards, which is XSem's order (operands [l; r]: left to
    right; XSem answers OrderDependent when the call writes what r reads, so nothing is claimed then; when the call
-   halts XSem accepts it only if r is a literal).  A call in a RIGHT operand, in an operand that needs a temporary, in a
-   subscript or in an actual is outside.  `cs` models StmtCodeGen and genSysCall (call-free
+   halts XSem accepts it only if r is a literal).  A call in a RIGHT operand, in an operand that needs a temporary or in a
+   subscript is outside.
+   CALL AS FIRST ACTUAL (cargs1): in a procedure-call statement p(e1, e2, .., en) the FIRST actual may be such a left-spine
+   expression when e2..en are simple (literals, variables, array names): genCallActuals computes e1 first and saves it in
+   the first temporary, loadActuals copies it to its outgoing word (LDAM 1; LDAI t; LDBM 1; STAI k) and then stores the
+   simple actuals -- XSem's order.  Calls in later actuals, in actuals of function calls and of system calls are outside.  `cs` models StmtCodeGen and genSysCall (call-free
    actuals) as handed to OptimiseDirectives, i.e. BEFORE its three peephole rewrites (tools/c01.py ties
    prologue ++ cs body ++ epilogue, with the peepholes applied by the executable `peephole`, to `xcmp -S`).
    stmt_ok f: whatever XSem.exec with fuel f answers for the statement from a state st related to the memory m
@@ -180,7 +185,8 @@ Print Assumptions C01_expr_fragment_partial.
    By induction on the fuel, so for any number of loop iterations and any nesting.
    Layout hypotheses: temporaries and outgoing area (sp .. sp+og-1) inside memory, unprotected, not word 1,
    disjoint from each other and from the variables; distinct variables have distinct words; sp+2 usable by `stop`.
-   Missing for C01_full: calls (and get) in a right operand, under and / or / unary minus, in subscripts and as actuals
+   Missing for C01_full: calls (and get) in a right operand, under and / or / unary minus, in subscripts, and as actuals
+   other than the first actual of a procedure-call statement
    (procedure-call statements, function calls as a whole right-hand side and on the left spine: see above, (4c), (4d)),
    local arrays and strings, the peephole pass, and the layout of whole programs. *)
 Theorem C01_stmt_fragment_partial :
@@ -375,25 +381,26 @@ Print Assumptions C01_cproc_lowered_shape.
        func fd(val k) is if k = 0 then return 7 else return fd(k - 1)
        proc cd(val n, array b) is var t;
          { t := n + 48; put(t, 0); g := g + n; b[n] := t; if n = 0 then skip else cd(n - 1, b) }
-       proc main() is { g := 0; cd(3, a); g := fd(g) + g; g := g + a[2]; ch := get(0) + 1; put(ch, 0) }
+       proc main() is { g := 0; cd(fd(0) - 4, a); g := fd(g) + g; g := g + a[2]; ch := get(0) + 1; put(ch, 0) }
    -- a recursive procedure with a value formal, an array formal and a local that assigns elements of the global array
    it was handed by address and passes it on, a recursive
-   function used as `return f(..)` and as the left operand in `x := f(..) + x`, all called with call-free actuals, a read
+   function used as `return f(..)`, as the left operand in `x := f(..) + x` and in the first actual `cd(fd(0) - 4, a)`, a read
    of the array, and one byte read from the console by get (the left operand of `get(0) + 1`) and written back.  XConstProp.front only
    turns put(..) and get(..) into the system calls (C01_demo_front); with the console bytes 66 67 XSem gives it the
    outputs "3210C" and one byte consumed (C01_demo_spec).
    Its image is laid out as xcmp does (BR _start; DATA 199993; g; a's word = 199996; _start: LDAP _exit; BR main; ..)
    from the model's lowered code -- prologue ++ cs body ++ exit label ++ epilogue, BEFORE the peepholes, which is the
-   code (4d) speaks of -- by the assembler model AsmLayout.assemble_directives (C01_demo_assembled: 200 bytes).  The
+   code (4d) speaks of -- by the assembler model AsmLayout.assemble_directives (C01_demo_assembled: 212 bytes).  The
    ISA runs that image from reset to the spec's behaviour (C01_demo_image_runs, by computation).
    prog_hyps is the conjunction of the hypotheses of C01_calls_partial, word for word (C01_calls_of_hyps derives the
-   theorem from it); C01_calls_nonvacuous_hyps: it holds for the demo, with P = the code words 6..49, m0 = the loaded
+   theorem from it); C01_calls_nonvacuous_hyps: it holds for the demo, with P = the code words 6..52, m0 = the loaded
    image, lab = the label positions of the layout, stack_lo = 1000, stack_hi = 199996, maxframe = 6, depth bound 10.  The code_at
    hypotheses are established by running the ISA's own decoder over the image (XCodegenImage.code_chk_sound through
    C01_instr_at_of_decode).
    C01_calls_nonvacuous_run: the theorem applied.  From main's frame (mem[1] = 199988, g and ch unassigned, a empty,
    the console holding 66 67) the ISA runs the code of main's body
-   `g := 0; cd(3, a); g := fd(g) + g; g := g + a[2]; ch := get(0) + 1; put(ch, 0)` at bytes [140, 191) -- four nested
+   `g := 0; cd(fd(0) - 4, a); g := fd(g) + g; g := g + a[2]; ch := get(0) + 1; put(ch, 0)` at bytes [140, 204) -- the
+   call of fd whose result less 4 is the first actual of cd, four nested
    activations of cd, each with prologue, output, an element assignment through the array formal, recursive call
    handing the array on, and epilogue, then seven of
    the function fd, each handing its result back through the caller's outgoing word, then the array read, then get
@@ -418,7 +425,7 @@ Proof. exact demo_hyps. Qed.
 Print Assumptions C01_calls_nonvacuous_hyps.
 
 Theorem C01_calls_nonvacuous_run : forall a b inp, console inp = [66; 67] -> exists evs a' b' m',
-  runs inp (mk 140 a b 0 (wr demo_m0 1 199988)) evs {| console := [67]; files := files inp |} (mk 191 a' b' 0 m') /\
+  runs inp (mk 140 a b 0 (wr demo_m0 1 199988)) evs {| console := [67]; files := files inp |} (mk 204 a' b' 0 m') /\
   writes evs = [(0, 51); (0, 50); (0, 49); (0, 48); (0, 67)] /\
   rd m' 1 = 199988 /\ rd m' 2 = 63 /\ rd m' 4 = 67 /\ rd m' 199998 = 50.
 Proof. exact demo_main_body_runs. Qed.
@@ -452,10 +459,10 @@ Proof. vm_compute. repeat split. Qed.
    from the validation (the_hyps); the exit stub, or the program's own exit.
    See the comment at C01_full for exactly what this adds to the full statement.
    C01_program_nonvacuous: the theorem applied to the demo program of (4e) -- its validated image demo_image
-   (50 words), started with the console bytes 66 67, shows the spec's behaviour: outputs "3210C", one byte consumed,
+   (53 words), started with the console bytes 66 67, shows the spec's behaviour: outputs "3210C", one byte consumed,
    exit 0; C01_program_nonvacuous_eof: started with an empty console it writes "3210" and the byte 0 (get answers 255 at
    the end of the input, ch = 256) and consumes nothing.  C01_demo_model_image: model_compile returns that image.
-   demo_model_image_opt (XCodegenDemo.v): with opt = true it returns 49 words, which tools/c01.py re-checks against
+   demo_model_image_opt (XCodegenDemo.v): with opt = true it returns 51 words, which tools/c01.py re-checks against
    the binary the real xcmp writes for the same source (coq_demo_image_tie), and does the same for generated
    fragment programs (program_model_tie: byte-identical images counted in the evidence). *)
 Theorem C01_program_partial : forall prm : params, C01_full (model_compile prm false).
